@@ -411,5 +411,32 @@ def sign_tx(coin, kinds, hash_type, n_out=2, version=1, lock_time=0, sequences=N
     return tx
 
 
+def sign_tx_mixed(coin, kinds, pass_hash_types, n_out=2, version=1, lock_time=0, sequences=None, amounts=None):
+    """as sign_tx, but signed by pycoin in len(pass_hash_types) passes, each with its own hash type: pass j < last supplies only
+    KEYS[j] (one cosigner of the 2-of-3 multisig kinds), the last pass all keys: a multisig input then carries signatures with
+    DIFFERENT hash types, and the checker of the last pass verifies the earlier signature before it makes its own"""
+    from pycoin.ecdsa.secp256k1 import secp256k1_generator as G
+    from pycoin.solve.utils import build_hash160_lookup, build_p2sh_lookup
+    T = TX(coin)
+    pz = {n: (s, extra) for n, s, extra in puzzles(coin)}
+    ins, us, scripts = [], [], []
+    for j, kd in enumerate(kinds):
+        s, extra = pz[kd]
+        seq = 0xFFFFFFFF if sequences is None else sequences[j]
+        ins.append(T.TxIn(bytes([0x21 + j]) * 32, j, b"", seq))
+        us.append(T.TxOut((10000 + 1000 * j) if amounts is None else amounts[j], s))
+        scripts += extra
+    outs = [T.TxOut(4000 + 100 * j, pz["p2pkh"][0] if j % 2 == 0 else b"\x51") for j in range(n_out)]
+    tx = T(version, ins, outs, lock_time)
+    tx.set_unspents(us)
+    ms_idx = [j for j, kd in enumerate(kinds) if kd.endswith("ms")]
+    for j, ht in enumerate(pass_hash_types):
+        last = j == len(pass_hash_types) - 1
+        keys = KEYS if last else [KEYS[j]]
+        tx.sign(build_hash160_lookup(keys, [G]), hash_type=ht, p2sh_lookup=build_p2sh_lookup(scripts),
+                tx_in_idx_set=None if last else ms_idx)
+    return tx
+
+
 def us_of(tx):
     return [None if u is None else (u.coin_value, bytes(u.script)) for u in tx.unspents]
